@@ -1,0 +1,194 @@
+//go:build verif
+
+// Contracts for the deductive checks in /verif (comment-only). C13: the sequential facts every
+// interleaving argument rests on (enter/done/ready/skip/newGraph); C10: the dependency-cycle check.
+// Lines starting with //@? are clauses the property demands that the engine cannot discharge yet
+// (reason next to each); they are placed where the snapshot parser does not glue them to a previous clause.
+
+package graph
+
+//@ spec vEntered() int = 0
+//@ spec vVisited() int = 1
+
+//@ func (*traversal).enter
+//@   nopanic[C01,C13]
+//@   requires v != nil && t.status != nil
+//@   ensures[C13] result <==> !old(has(t.status, v.key))
+//@   ensures[C13] result ==> has(t.status, v.key) && t.status[v.key] == vEntered()
+//@   ensures[C13] forall k string :: k != v.key ==> (has(t.status, k) <==> old(has(t.status, k))) && t.status[k] == old(t.status[k])
+//@   ensures[C13] !result ==> forall k string :: (has(t.status, k) <==> old(has(t.status, k))) && t.status[k] == old(t.status[k])
+
+//@ func (*traversal).done
+//@   nopanic[C01,C13]
+//@   requires v != nil && t.status != nil && t.results != nil
+//@   requires has(t.status, v.key) && t.status[v.key] == vEntered()
+//@   ensures[C13] has(t.status, v.key) && t.status[v.key] == vVisited()
+//@   ensures[C13] has(t.results, v.key) && t.results[v.key] == result
+//@   ensures[C13] forall k string :: k != v.key ==> (has(t.status, k) <==> old(has(t.status, k))) && t.status[k] == old(t.status[k])
+//@   ensures[C13] forall k string :: k != v.key ==> (has(t.results, k) <==> old(has(t.results, k))) && t.results[k] == old(t.results[k])
+
+//@ func (*traversal).ready
+//@   nopanic[C01,C13]
+//@   requires v != nil && t.Options != nil
+//@   ensures[C13] result <==> forall d string :: has(ite(t.Options.inverse, v.parents, v.children), d) ==> has(t.status, d) && t.status[d] == vVisited()
+//@   ensures[C13] forall k string :: (has(t.status, k) <==> old(has(t.status, k))) && t.status[k] == old(t.status[k])
+//@   loop 1
+//@     invariant[C13] forall d string :: seen(d) ==> has(t.status, d) && t.status[d] == vVisited()
+
+// one-level well-formedness of a vertex / a graph / a traversal (the engine has no recursive or
+// heap-wide predicates, so "every reachable vertex is well formed" is stated through g.vertices)
+//@ spec vwf(v ref) bool = v != nil && v.service != nil && v.children != nil && v.parents != nil && (forall k string :: has(v.children, k) ==> v.children[k] != nil) && (forall k string :: has(v.parents, k) ==> v.parents[k] != nil)
+//@ spec gwf(g ref) bool = g != nil && g.vertices != nil && forall k string :: has(g.vertices, k) ==> vwf(g.vertices[k])
+//@ spec twf(t ref) bool = t.Options != nil && t.status != nil && t.results != nil
+
+//@ func (*graph).addVertex
+//@   nopanic[C01,C13]
+//@   assigns g.vertices.*
+//@   requires g.vertices != nil
+//@   ensures[C13] has(g.vertices, name) && vwf(g.vertices[name]) && fresh(g.vertices[name]) && g.vertices[name].key == name
+//@   ensures[C13] forall k string :: !has(g.vertices[name].children, k) && !has(g.vertices[name].parents, k)
+//@   ensures[C13] forall k string :: k != name ==> (has(g.vertices, k) <==> old(has(g.vertices, k))) && g.vertices[k] == old(g.vertices[k])
+
+//@ func (*graph).addEdge
+//@   nopanic[C01,C13]
+//@   requires has(g.vertices, src) && has(g.vertices, dest) && vwf(g.vertices[src]) && vwf(g.vertices[dest])
+
+//@ func (*graph).roots
+//@   nopanic[C01,C13]
+//@   requires gwf(g)
+//@   ensures[C13] forall i int :: 0 <= i && i < len(result) ==> result[i] != nil && len(result[i].parents) == 0
+//@   loop 1
+//@     invariant[C13] forall i int :: 0 <= i && i < len(res) ==> res[i] != nil && len(res[i].parents) == 0
+
+//@ func (*graph).leaves
+//@   nopanic[C01,C13]
+//@   requires gwf(g)
+//@   ensures[C13] forall i int :: 0 <= i && i < len(result) ==> result[i] != nil && len(result[i].children) == 0
+//@   loop 1
+//@     invariant[C13] forall i int :: 0 <= i && i < len(res) ==> res[i] != nil && len(res[i].children) == 0
+
+//@ func (*vertex).descendents
+//@   nopanic[C01,C13]
+//@   requires vwf(v)
+
+//@ func CheckCycle
+//@   nopanic[C01,C10]
+//@   requires project != nil
+
+//@ func (*graph).checkCycle
+//@   nopanic[C01,C10,C13]
+//@   requires gwf(g)
+
+// ENGINE LIMITS (see report): slices.Index is modelled by its range only (no "-1 ==> absent"), and a loop
+// that contains a call havocs whole heap classes, so the C10 clauses below and their invariants are inactive.
+//@ func searchCycle
+//@   nopanic[C01,C10,C13]
+//@?  assigns path.*
+//@?  ensures[C10,C13] err == nil ==> forall c string, i int :: has(v.children, c) && 0 <= i && i < len(path) ==> path[i] != c
+//@?  ensures forall i int :: 0 <= i && i < len(path) ==> path[i] == old(path[i])
+//@   requires vwf(v)
+//@   loop 1
+//@?    invariant[C10] forall j int :: 0 <= j && j < len(names) ==> has(v.children, names[j])
+//@?    invariant[C10] forall c string :: has(v.children, c) ==> exists j int :: 0 <= j && j < len(names) && names[j] == c
+//@?    invariant[C10] forall j int, i int :: 0 <= j && j <= rangeindex && 0 <= i && i < len(path) ==> path[i] != names[j]
+//@?    invariant forall i int :: 0 <= i && i < len(path) ==> path[i] == old(path[i])
+//@     invariant[C10] -1 <= rangeindex && rangeindex < len(names)
+
+//@ func newGraph
+//@   nopanic[C01,C10,C13]
+//@   requires project != nil
+//@   ensures[C10,C13] err == nil ==> gwf(result.0)
+//@   ensures[C13] forall n string, d string :: old(has(project.Services, n)) ==> (has(project.Services[n].DependsOn, d) <==> old(has(project.Services[n].DependsOn, d)))
+//@   loop 1
+//@     invariant g != nil && g.vertices != nil
+//@     invariant forall n string :: has(g.vertices, n) ==> vwf(g.vertices[n])
+//@     invariant forall n string :: seen(n) ==> has(g.vertices, n)
+//@   loop 2
+//@     invariant g != nil && g.vertices != nil
+//@     invariant forall n string :: has(g.vertices, n) ==> vwf(g.vertices[n])
+//@     invariant forall n string :: has(project.Services, n) ==> has(g.vertices, n)
+//@   loop 3
+//@     invariant g != nil && g.vertices != nil && src != nil && has(g.vertices, name) && src == g.vertices[name]
+//@     invariant forall n string :: has(g.vertices, n) ==> vwf(g.vertices[n])
+//@     invariant forall n string :: has(project.Services, n) ==> has(g.vertices, n)
+
+//@ func newTraversal
+//@   nopanic[C01,C13]
+//@   ensures[C13] result != nil && fresh(result)
+//@   ensures[C13] twf(result)
+//@   ensures[C13] forall k string :: !has(result.status, k) && !has(result.results, k)
+
+//@ func InReverseOrder
+//@   nopanic[C01,C13]
+//@   requires o != nil
+//@   ensures[C13] o.inverse
+
+//@ func WithMaxConcurrency
+//@   nopanic[C01,C13]
+//@ func WithMaxConcurrency$1
+//@   nopanic[C01,C13]
+//@   requires o != nil
+//@   ensures[C13] o.maxConcurrency == max
+
+//@ func WithRootNodesAndDown
+//@   nopanic[C01,C13]
+//@ func WithRootNodesAndDown$1
+//@   nopanic[C01,C13]
+//@   requires o != nil
+//@   ensures[C13] o.after == nodes
+
+//@ func InDependencyOrder
+//@   nopanic[C01,C13]
+//@   requires project != nil && fn != nil
+//@   requires forall i int :: 0 <= i && i < len(options) ==> options[i] != nil
+//@ func InDependencyOrder$1
+//@   nopanic[C01,C13]
+//@   requires fn != nil
+
+// a cyclic graph (or a missing required dependency) is refused before any visit: no result map
+//@ func CollectInDependencyOrder
+//@   nopanic[C01,C13]
+//@   requires project != nil && fn != nil
+//@   requires forall i int :: 0 <= i && i < len(options) ==> options[i] != nil
+//@   loop 1
+//@     invariant -1 <= rangeindex && rangeindex < len(options)
+
+//@ func walk
+//@   nopanic[C01,C13]
+//@   requires gwf(g) && t != nil && twf(t) && t.visitor != nil
+
+//@ func walk$1
+//@   nopanic[C01,C13]
+//@   requires t != nil && twf(t) && t.visitor != nil
+
+//@ func (*traversal).visit
+//@   nopanic[C01,C13]
+//@   requires twf(t) && t.visitor != nil && vwf(node)
+
+// runs after enter(node) returned true in visit; stable under the guarantee of enter/done of other
+// goroutines (they only touch keys they entered themselves)
+//@ func visit$1
+//@   nopanic[C01,C13]
+//@   requires t != nil && twf(t) && t.visitor != nil && vwf(node)
+//@   requires has(t.status, node.key) && t.status[node.key] == vEntered()
+
+//@ func (*traversal).extremityNodes
+//@   nopanic[C01,C13]
+//@   requires t.Options != nil && gwf(g)
+//@   ensures[C13] forall i int :: 0 <= i && i < len(result) ==> result[i] != nil
+//@   ensures[C13] t.Options.inverse ==> forall i int :: 0 <= i && i < len(result) ==> len(result[i].parents) == 0
+//@   ensures[C13] !t.Options.inverse ==> forall i int :: 0 <= i && i < len(result) ==> len(result[i].children) == 0
+
+//@ func (*traversal).adjacentNodes
+//@   nopanic[C01,C13]
+//@   requires t.Options != nil && v != nil
+//@   ensures[C13] result == ite(t.Options.inverse, v.children, v.parents)
+
+// "roots are never skipped" proves at the first two returns but not at the last one: the call of
+// descendents() makes the engine havoc the whole []string heap (t.after included); descendents cannot be
+// given a frame (its loop contains a call), so the clause is inactive.
+//@ func (*traversal).skip
+//@   nopanic[C01,C13]
+//@?  ensures[C13] (exists i int :: 0 <= i && i < len(t.Options.after) && t.Options.after[i] == node.key) ==> !result
+//@   requires t.Options != nil && vwf(node)
+//@   ensures[C13] len(t.Options.after) == 0 ==> !result
